@@ -14,6 +14,7 @@ Functions:
 from __future__ import annotations
 
 import multiprocessing
+import os
 import pickle
 import sys
 from dataclasses import dataclass
@@ -40,8 +41,12 @@ def _pickle_load(file: Path) -> Any:
 
 
 def _pickle_save(file: Path, data: Any) -> None:
-    with file.open("wb") as fp:
+    # Write next to the target and publish it with an atomic rename, so that an
+    # interrupted run can never leave a truncated result under the final name
+    tmp = file.with_name(f"{file.name}.{os.getpid()}.tmp")
+    with tmp.open("wb") as fp:
         pickle.dump(data, fp)
+    tmp.replace(file)
 
 
 @dataclass
